@@ -89,6 +89,9 @@ class ConfidenceLevel(object):
         if new_ndim <= 0:
             raise ValueError("Number of dimensions must be greater 0! Received: %d" % (new_ndim,))
         self._ndim = new_ndim
+        # a cached conversion between sigma and cl belongs to the old number of dimensions: keep sigma
+        if getattr(self, "_sigma", None) is not None and getattr(self, "_cl", None) is not None:
+            self._cl = None
 
     @property
     def sigma_string(self):
